@@ -497,6 +497,27 @@ def _clamp(i, n):
     return z3.If(i < 0, z3.If(i + n < 0, 0, i + n), z3.If(i > n, n, i))
 
 
+def byte_int(E, st, bv):
+    """integer value of a byte term.  Default: BV2Int(bv).  Opt-in (contract option int_bytes): a named integer x with the
+    defining facts 0 <= x <= 255 and Int2BV(x, 8) == bv (one name per term and proof) -- arithmetic over bytes then stays in
+    linear integer arithmetic, which z3 decides far faster than through bv2int"""
+    if not E.options.get('int_bytes'):
+        return z3.BV2Int(bv)
+    bv = z3.simplify(bv)
+    if z3.is_bv_value(bv):
+        return z3.IntVal(bv.as_long())
+    if z3.is_app(bv) and bv.decl().kind() == z3.Z3_OP_INT2BV and E.implied(st, z3.And(bv.arg(0) >= 0, bv.arg(0) <= 255)):
+        return bv.arg(0)
+    memo = E.__dict__.setdefault('_byte_ints', {})
+    key = bv.get_id()
+    if key not in memo:
+        memo[key] = (E.fresh(INT, 'byteval'), bv)
+    x, bv0 = memo[key]
+    st.fact(z3.And(x >= 0, x <= 255))
+    st.fact(z3.Int2BV(x, 8) == bv0)
+    return x
+
+
 def reverse_value(E, st, zs):
     """s[::-1]: explicit for short constant lengths, otherwise uninterpreted with the ground facts that define reversal
     at this instance (length, involution, first/last element, big-endian value of the reverse == little-endian value)"""
@@ -609,6 +630,18 @@ def subscript(E, base, idx, st, sink):
             for r in mv:
                 yield r
             return
+        gid = getattr(h, 'ghost_id', None)
+        if h.kind == 'obj' and h.cls is None and gid and E.registry is not None:
+            # abstract (native / opaque) object: obj[idx] exists only as the contract / model  <class>.__getitem__
+            hook = E.registry.call_hook(E, gid + '.__getitem__', st)
+            if hook is not None:
+                for o in hook(E, st, [base, idx], {}):
+                    if o[0] == 'raise':
+                        sink.append(o)
+                    else:
+                        yield o[1], o[2]
+                return
+            raise Unsupported('abstract object %s has no contract for [...]' % gid)
         sink.append(('raise', st, exc(TypeError, 'object is not subscriptable')))
         return
     if isinstance(base, FrozenDict):
@@ -655,7 +688,7 @@ def subscript(E, base, idx, st, sink):
                 j = n + idx
             else:
                 j = z3.If(i < 0, i + n, i)
-            yield ok, mk_int(z3.BV2Int(zs[j]))
+            yield ok, mk_int(byte_int(E, ok, zs[j]))
         return
     if base is None or is_intlike(base):
         sink.append(('raise', st, exc(TypeError, 'object is not subscriptable')))
@@ -738,9 +771,21 @@ def store_subscript(E, base, idx, v, st, sink):
             if isinstance(idx, slice):
                 if idx.step is not None:
                     raise Unsupported('bytearray slice step store')
-                lo = z3.IntVal(0) if idx.start is None else _clamp(zint(idx.start), n)
-                hi = n if idx.stop is None else _clamp(zint(idx.stop), n)
-                hi = z3.If(hi < lo, lo, hi)
+                def _bound(b):
+                    # the clamped CPython formula only when the path condition does not already fix the case (as in slice_bytes)
+                    zb = zint(b)
+                    if E.implied(st, z3.And(zb >= 0, zb <= n)):
+                        return zb
+                    if E.implied(st, z3.And(zb < 0, zb + n >= 0)):
+                        return zb + n
+                    if E.implied(st, zb >= n):
+                        return n
+                    return _clamp(zb, n)
+                lo = z3.IntVal(0) if idx.start is None else _bound(idx.start)
+                hi = n if idx.stop is None else _bound(idx.stop)
+                if not E.implied(st, hi >= lo):
+                    hi = z3.If(hi < lo, lo, hi)
+                lo, hi = z3.simplify(lo), z3.simplify(hi)
                 if isinstance(v, Ref):
                     v = st.heap[v.oid].items
                 h.items = mk_bytes(z3.Concat(z3.SubSeq(zs, 0, lo), zbytes(v), z3.SubSeq(zs, hi, n - hi)))
